@@ -1,7 +1,7 @@
 (* Executable round-to-nearest-even of a rational to p significant bits (unbounded
    exponent): the arithmetic of CPython floats (p = 53) and of mpmath at
    precision p, away from overflow/underflow.  Used only to execute models. *)
-From Coq Require Import ZArith QArith.
+From Coq Require Import ZArith QArith Qround.
 Open Scope Z_scope.
 
 Definition Zrhe (n d : Z) : Z :=
@@ -23,3 +23,14 @@ Definition round_ne (p : Z) (x : Q) : Q :=
   let m := if 0 <=? e then Zrhe a (d * pow2 e) else Zrhe (a * pow2 (- e)) d in
   mkq (Z.sgn n * m) e.
 Definition rnd53 := round_ne 53.
+
+(* Square root rounded to nearest (ties to even) at p bits: the integer square root at the scale 2^-K with a sticky bit - the midpoint of
+   the interval of width 2^-K that contains the root, or the root itself when it is a multiple of 2^-K - then round_ne.  This is the
+   correctly rounded root whenever half an ulp of the result is more than 2^-K (for p = 103, K = 110: every x >= 1/4). *)
+Definition sqrt_approx (K : Z) (x : Q) : Q :=
+  let t := (x * inject_Z (4 ^ K))%Q in
+  let f := Qfloor t in
+  let s := Z.sqrt f in
+  let exact := (s * s =? f) && Qeq_bool (inject_Z f) t in
+  (inject_Z (2 * s + (if exact then 0 else 1)) / inject_Z (2 ^ (K + 1)))%Q.
+Definition sqrt_ne (K p : Z) (x : Q) : Q := round_ne p (sqrt_approx K x).
